@@ -438,3 +438,146 @@ Proof.
     hdr_split h; destruct ch, pn, mn, ig, du; cbn [some_field app dec_fields fst snd]; raws; fin; done_ok; reflexivity.
 Qed.
 End Core.
+
+Local Open Scope nat_scope.
+Ltac split_and := repeat match goal with H : _ && _ = true |- _ => apply andb_prop in H as [? ?] end.
+
+(* ---- structure of nodes ---------------------------------------------------------------------------------------------- *)
+Lemma in_flat_nodes (subs : list pt) m : In m (flat_map nodes subs) <-> exists c, In c subs /\ In m (nodes c).
+Proof. apply in_flat_map. Qed.
+
+Lemma nodes_trans : forall p x y, In x (nodes p) -> In y (nodes x) -> In y (nodes p).
+Proof.
+  induction p using pt_ind2; intros x y Hn Hm; cbn [nodes] in Hn; destruct Hn as [<-|Hn]; try exact Hm; try contradiction;
+    cbn [nodes]; right.
+  - apply in_flat_map in Hn as (c0 & Hc & Hn). apply in_flat_map. exists c0. split; [exact Hc|].
+    rewrite Forall_forall in H. eapply H; eauto.
+  - eauto.
+  - eauto.
+  - eauto.
+  - apply in_flat_map in Hn as (c0 & Hc & Hn). apply in_flat_map. exists c0. split; [exact Hc|].
+    rewrite Forall_forall in H. eapply H; eauto.
+  - eauto.
+  - eauto.
+  - apply in_app_or in Hn as [Hn|Hn]; apply in_or_app; [left|right]; eauto.
+  - eauto.
+Qed.
+
+Lemma size_le : forall p x, In x (nodes p) -> length (nodes x) <= length (nodes p).
+Proof.
+  induction p using pt_ind2; intros x Hn; cbn [nodes] in Hn; destruct Hn as [<-|Hn]; try lia; try contradiction;
+    cbn [nodes length].
+  - apply in_flat_map in Hn as (c0 & Hc & Hn). rewrite Forall_forall in H. specialize (H c0 Hc x Hn).
+    assert (length (nodes c0) <= length (flat_map nodes subs)).
+    { clear -Hc. induction subs as [|x r IH]; [destruct Hc|]. cbn. rewrite app_length. destruct Hc as [->|Hc]; [lia|]. specialize (IH Hc). lia. }
+    lia.
+  - specialize (IHp x Hn). lia.
+  - specialize (IHp x Hn). lia.
+  - specialize (IHp x Hn). lia.
+  - apply in_flat_map in Hn as (c0 & Hc & Hn). rewrite Forall_forall in H. specialize (H c0 Hc x Hn).
+    assert (length (nodes c0) <= length (flat_map nodes subs)).
+    { clear -Hc. induction subs as [|x r IH]; [destruct Hc|]. cbn. rewrite app_length. destruct Hc as [->|Hc]; [lia|]. specialize (IH Hc). lia. }
+    lia.
+  - specialize (IHp x Hn). lia.
+  - specialize (IHp x Hn). lia.
+  - rewrite app_length. apply in_app_or in Hn as [Hn|Hn]; [specialize (IHp1 x Hn)|specialize (IHp2 x Hn)]; lia.
+  - specialize (IHp x Hn). lia.
+Qed.
+
+Lemma size_lt n m : In m (descendants n) -> length (nodes m) < length (nodes n).
+Proof.
+  intros H. rewrite (nodes_cons n). cbn [length].
+  assert (length (nodes m) <= length (descendants n)); [|lia].
+  unfold descendants in *. destruct n; cbn [nodes tl] in *; try contradiction.
+  - apply in_flat_map in H as (c & Hc & Hn). pose proof (size_le c m Hn).
+    assert (length (nodes c) <= length (flat_map nodes subs)); [|lia].
+    clear -Hc. induction subs as [|x r IH]; [destruct Hc|]. cbn. rewrite app_length. destruct Hc as [->|Hc]; [lia|]. specialize (IH Hc). lia.
+  - now apply size_le.
+  - now apply size_le.
+  - now apply size_le.
+  - apply in_flat_map in H as (c & Hc & Hn). pose proof (size_le c m Hn).
+    assert (length (nodes c) <= length (flat_map nodes subs)); [|lia].
+    clear -Hc. induction subs as [|x r IH]; [destruct Hc|]. cbn. rewrite app_length. destruct Hc as [->|Hc]; [lia|]. specialize (IH Hc). lia.
+  - now apply size_le.
+  - now apply size_le.
+  - rewrite app_length. apply in_app_or in H as [H|H]; apply size_le in H; lia.
+  - now apply size_le.
+Qed.
+
+Lemma wf_nodes : forall p, wf p = true -> forall x, In x (nodes p) -> wf x = true.
+Proof.
+  induction p using pt_ind2; intros Hw x Hn; cbn [nodes] in Hn; destruct Hn as [<-|Hn]; try exact Hw; try contradiction;
+    cbn [wf pt_hdr] in Hw; split_and.
+  - apply in_flat_map in Hn as (c0 & Hc & Hn). rewrite Forall_forall in H. eapply H; eauto.
+    rewrite forallb_forall in *. auto.
+  - eauto.
+  - eauto.
+  - eauto.
+  - apply in_flat_map in Hn as (c0 & Hc & Hn). rewrite Forall_forall in H. eapply H; eauto.
+    rewrite forallb_forall in *. auto.
+  - eauto.
+  - eauto.
+  - apply in_app_or in Hn as [Hn|Hn]; eauto.
+  - eauto.
+Qed.
+
+(* ---- loading through a fresh PulseStorage ---------------------------------------------------------------------------- *)
+Definition cache_ok (P : pt) (st : lstate) : Prop :=
+  forall i q, lookup i (l_cache st) = Some q -> exists n, In n (nodes P) /\ pt_id n = Some i /\ erase q = erase n.
+
+Lemma load_ok P be : wf P = true -> consistent P -> be_holds P be ->
+  forall f n i, In n (nodes P) -> pt_id n = Some i -> length (nodes n) <= f ->
+  forall st, cache_ok P st ->
+  exists q st', load f be st i = Ok (q, st') /\ erase q = erase n /\ cache_ok P st'.
+Proof.
+  intros HW HC HB. induction f as [|f IH]; intros n i Hn Hi Hf st Hst.
+  - rewrite nodes_cons in Hf. cbn in Hf. lia.
+  - cbn [load]. destruct (lookup i (l_cache st)) as [q|] eqn:EL.
+    + destruct (Hst i q EL) as (n0 & Hn0 & Hi0 & He). rewrite (HC n n0 i Hn Hn0 Hi Hi0). eauto.
+    + rewrite (HB n i Hn Hi).
+      destruct (decode_core (load f be) (cache_ok P)) with (p := n) (st := st) as (p' & st' & E & Ee & Hi').
+      * intros s Hs. exact Hs.
+      * eapply wf_nodes; eauto.
+      * apply Forall_forall. intros m Hm j Hj s Hs. apply IH; auto.
+        -- eapply nodes_trans; eauto. rewrite nodes_cons. now right.
+        -- apply size_lt in Hm. lia.
+      * exact Hst.
+      * rewrite E. cbn [bind]. eexists; eexists; split; [reflexivity|split; [exact Ee|]].
+        intros j q. cbn [l_cache lookup]. destruct (String.eqb j i) eqn:Eji.
+        -- apply String.eqb_eq in Eji as ->. intros [= <-]. eauto.
+        -- apply Hi'.
+Qed.
+
+(* ---- the theorems of Props.v ---------------------------------------------------------------------------------------- *)
+Lemma roundtrip_node p rs : wf p = true ->
+  (forall n i, In n (descendants p) -> pt_id n = Some i -> forall st, rs st i = Ok (n, st)) ->
+  forall st, exists p' st', decode rs (to_data p) st = Ok (p', st') /\ erase p' = erase p.
+Proof.
+  intros Hw Hr st.
+  destruct (decode_core rs (fun _ => True)) with (p := p) (st := st) as (p' & st' & E & Ee & _); auto.
+  - apply Forall_forall. intros n Hn i Hi s _. exists n, s. rewrite (Hr n i Hn Hi s). auto.
+  - eauto.
+Qed.
+
+Lemma load_roundtrip P be i : wf P = true -> consistent P -> be_holds P be -> pt_id P = Some i ->
+  exists p' st', load (length (nodes P)) be fresh_l i = Ok (p', st') /\ erase p' = erase P.
+Proof.
+  intros Hw Hc Hb Hi.
+  destruct (load_ok P be Hw Hc Hb (length (nodes P)) P i) with (st := fresh_l) as (q & st' & E & Ee & _); auto.
+  - rewrite nodes_cons. now left.
+  - intros j q. cbn. discriminate.
+  - eauto.
+Qed.
+
+(* every identifier that occurs in the loaded object is served from the temporary storage afterwards *)
+Lemma load_cached P be : wf P = true -> consistent P -> be_holds P be ->
+  forall f n i, In n (nodes P) -> pt_id n = Some i -> length (nodes n) <= f ->
+  forall st, cache_ok P st -> forall q st', load f be st i = Ok (q, st') -> lookup i (l_cache st') = Some q.
+Proof.
+  intros Hw Hc Hb f n i Hn Hi Hf st Hst q st' E. destruct f as [|f]; cbn [load] in E.
+  - destruct (lookup i (l_cache st)) eqn:EL; [|discriminate]. injection E as <- <-. exact EL.
+  - destruct (lookup i (l_cache st)) eqn:EL; [injection E as <- <-; exact EL|].
+    destruct (lookup i be); [|discriminate].
+    destruct (decode (load f be) j st) as [[p1 s1]|]; [|discriminate]. cbn in E. injection E as <- <-.
+    cbn. now rewrite String.eqb_refl.
+Qed.
